@@ -885,8 +885,10 @@ pub struct Observed {
     pub parse_errors: usize,
 }
 
+/// analyses `text` as THE file of the workspace (the same virtual file is overwritten every time, so the workspace
+/// never holds other programs whose globals could be confused with this one's)
 pub fn observe(ws: &mut VirtualWorkspace, text: &str) -> (FileId, Observed) {
-    let fid = ws.def(text);
+    let fid = ws.def_file("prog.lua", text);
     let obs = observe_file(ws, fid);
     (fid, obs)
 }
